@@ -182,6 +182,75 @@ def shard (cfg : Cfg) (d : CDesc) (starts : String → Nat → Nat) (size period
 def shardIds (cfg : Cfg) (d : Desc) (starts : String → Nat → Nat) (size period now : Int) : List String :=
   (shard cfg (d.map core) starts size period now).map (·.id)
 
+/-! ## the same with the token index kept apart from the owner index (`panic` branch explicit)
+
+In Go the walk reads `tokens[p]` from `ringTokens` / `ringTokensByZone[zone]` and looks the owner up in
+`ringInstanceByToken`; a token without an entry there makes `shuffleShard` panic with
+`ErrInconsistentTokensInfo`. The model above carries the owner with each token, which hides that
+branch; here the two indexes are separate and the lookup can fail. `PfC12.shard_total_on_wf`: on a
+well-formed ring the checked model never fails and returns exactly `shard`. -/
+
+inductive Err | inconsistentTokensInfo
+  deriving DecidableEq, Repr
+
+/-- `ringTokens` / `ringTokensByZone[zone]`: the sorted tokens of a set of instances. -/
+def tokenList (l : CDesc) : List Nat := (l.flatMap (·.tokens)).mergeSort fun a b => decide (a ≤ b)
+
+/-- `ringInstanceByToken[token]` followed by `ringDesc.Ingesters[info.InstanceID]`. -/
+def instanceByToken (d : CDesc) (t : Nat) : Option CInst := d.find? fun i => i.tokens.contains t
+
+/-- `searchToken` on a bare token list. -/
+def searchTokenN (toks : List Nat) (key : Nat) : Nat := searchToken (toks.map fun t => (t, ())) key
+
+def walkC (p : LB) (byTok : Nat → Option CInst) : List Nat → List CInst → Except Err (List CInst × Bool)
+  | [], sel => .ok (sel, false)
+  | t :: rest, sel =>
+    match byTok t with
+    | none => .error .inconsistentTokensInfo     -- panic(ErrInconsistentTokensInfo)
+    | some i =>
+      if selected sel i.id then walkC p byTok rest sel
+      else if !includeRO p i then walkC p byTok rest sel
+      else if extend p i then walkC p byTok rest (i :: sel)
+      else .ok (i :: sel, true)
+
+def picksC (p : LB) (byTok : Nat → Option CInst) (toks : List Nat) (starts : Nat → Nat) :
+    Nat → Nat → List CInst → Except Err (List CInst)
+  | 0, _, sel => .ok sel
+  | n + 1, i, sel =>
+    match walkC p byTok (rotate toks (searchTokenN toks (starts i))) sel with
+    | .error e => .error e
+    | .ok r => if r.2 then picksC p byTok toks starts n (i + 1) r.1 else .ok r.1
+
+def zoneStepC (cfg : Cfg) (d : CDesc) (p : LB) (starts : String → Nat → Nat) (n : Int)
+    (shard : List CInst) (z : String) : Except Err (List CInst) :=
+  if cfg.zoneAware then
+    if n ≥ (countPerZone d z : Nat) then
+      .ok ((d.filter fun i => inZone z i && includeRO p i) ++ shard)
+    else picksC p (instanceByToken d) (tokenList (d.filter (inZone z))) (starts z) n.toNat 0 shard
+  else picksC p (instanceByToken d) (tokenList d) (starts "") n.toNat 0 shard
+
+def foldZonesC (f : List CInst → String → Except Err (List CInst)) : List String → List CInst → Except Err (List CInst)
+  | [], s => .ok s
+  | z :: zs, s =>
+    match f s z with
+    | .ok s' => foldZonesC f zs s'
+    | .error e => .error e
+
+def shuffleShardC (cfg : Cfg) (d : CDesc) (starts : String → Nat → Nat) (size period now : Int) : Except Err (List CInst) :=
+  let p := mkLB period now
+  if p.on && decide (oldestReg d > 0) && decide (oldestReg d ≥ p.til) then .ok d
+  else foldZonesC (zoneStepC cfg d p starts (perZone cfg d size)) (actualZones cfg d) []
+
+/-- `Ring.ShuffleShard` / `Ring.ShuffleShardWithLookback` with the inconsistent-token panic modelled. -/
+def shardC (cfg : Cfg) (d : CDesc) (starts : String → Nat → Nat) (size period now : Int) : Except Err (List CInst) :=
+  if size ≤ 0 then .ok (filterOutRO d period now) else shuffleShardC cfg d starts size period now
+
+/-- observation of the checked model on a ring descriptor. -/
+def shardIdsC (cfg : Cfg) (d : Desc) (starts : String → Nat → Nat) (size period now : Int) : Except Err (List String) :=
+  match shardC cfg (d.map core) starts size period now with
+  | .ok l => .ok (l.map (·.id))
+  | .error e => .error e
+
 /-! ## partition ring (`PartitionRing.shuffleShard`) -/
 
 inductive PState | unknown | pending | active | inactive | deleted
